@@ -293,8 +293,8 @@ def miri_job(name, args, secs=240, shards=16, stage=5, extra_flags=""):
 
 for _p in ("C01", "C02", "C03"):
     CHECKS[_p]["jobs"] += [
-        miri_job("tiny-S-miri", ["rc", "--profile", "tiny", "--mode", "S", "--prop", _p, "--relevant", "any_destruct"], shards=8),
-        # free-running threads: without the Stacked-Borrows retag accesses (see DESIGN.md 12.4), real accesses only
+        # without the Stacked-Borrows retags (see DESIGN.md 12.4): real accesses only
+        miri_job("tiny-S-miri", ["rc", "--profile", "tiny", "--mode", "S", "--prop", _p, "--relevant", "any_destruct"], shards=8, extra_flags=" -Zmiri-disable-stacked-borrows"),
         miri_job("tiny-P-miri", ["rc", "--profile", "tiny", "--mode", "P", "--prop", _p, "--relevant", "any_destruct"], shards=8, extra_flags=" -Zmiri-disable-stacked-borrows"),
     ]
 for _p in ("C13", "C15"):
